@@ -1029,8 +1029,8 @@ LEVEL_TEXT = ('Lean 4 theorems over a model of utils.limit_iterable (counting ge
               'memorize_bounded, and quota_flow for first-order call trees. Generated-table theorems re-proved on every run '
               '(C08Gen): every registered parameter that admits a lazy sequence and is iterated is of a limiting type and no '
               'payload iterates the elements of a parameter unlimited (consumers_limited, full - every row of the live '
-              'registry), no consumed producer '
-              'result is limited (producers_limited). Tie and oracle: endless instrumented sources into every registered '
+              'registry), and no payload iterates the result of a lambda it calls except through limit_iterable '
+              '(producers_limited). Tie and oracle: endless instrumented sources into every registered '
               'function and position in watchdogged, address-space-limited worker processes; result shapes around the limit; '
               'quota boundaries and 10**10 repetitions against the model.')
 LEVEL_NOTE = ('trusted: Lean kernel; hand-written models Yaql/Model/Limits.lean and Convert.lean; the translator '
